@@ -61,8 +61,21 @@ FM_TGT2 = ["S", "AIS", "AMk", "MIkS", "MIkN", "Xk", "Xj", "Xkj", "AI", "all"]
 FM_VARS2 = ["nilB", "nokey", "Xnil", "Xstr", "AXint"]
 
 
+def fm_repo_fixes():
+    """the repairs recorded as fixed: in known_findings.txt (any property: D7 is filed under C20), as the model's Fx names"""
+    import re
+    fx = set()
+    try:
+        for ln in open(os.path.join(vlib.ROOT, "known_findings.txt")):
+            if ln.startswith("fixed:") and ("property=C15" in ln or "property=C20" in ln):   # D numbers of other families may collide
+                fx |= set(re.findall(r"\bD\d+\b", ln))
+    except OSError:
+        pass
+    return sorted(fx & {"D6", "D7", "D16", "D17", "D18", "D19", "D20", "D21", "D24"})
+
+
 def fm_cfg(maxmaps, src, tgt, varset, kind="struct"):
-    return ("CONSTANTS\n  SrcKind = \"" + kind + "\"\n  MaxMaps = %d\n  SrcNames = %s\n  TgtNames = %s\n  VarSet = %s\nINIT GenInit\nNEXT GenNext\n"
+    return ("CONSTANTS\n  RepoFixes = " + _q(fm_repo_fixes()) + "\n  SrcKind = \"" + kind + "\"\n  MaxMaps = %d\n  SrcNames = %s\n  TgtNames = %s\n  VarSet = %s\nINIT GenInit\nNEXT GenNext\n"
             "INVARIANT FixedDesignHolds\nINVARIANT Emit\nCHECK_DEADLOCK FALSE\n" % (maxmaps, _q(src), _q(tgt), _q(varset)))
 
 
@@ -103,7 +116,7 @@ def fm_check_mirror(lines, flats):
     seen = set()
     for ln in lines:
         d = json.loads(ln)
-        if (d["tp"], d["var"]) in seen or not d["outs"] or d["var"] not in flats:
+        if (d["tp"], d["var"]) in seen or not d["outs"] or d["var"] not in flats or any(len(g["maps"]) == 0 for g in d["decl"]):
             continue
         seen.add((d["tp"], d["var"]))
         o = d["outs"][0]
@@ -122,16 +135,9 @@ def fm_first_msg(line, scope, kinds):
     return ""
 
 
-def _repo_fixed():
-    try:
-        return any(ln.startswith("fixed:") and "property=C15" in ln for ln in open(os.path.join(vlib.ROOT, "known_findings.txt")))
-    except OSError:
-        return False
-
-
 def fm_pred(case):
     """verdict the model predicts: for the code as first seen, or with the repairs recorded as fixed: in known_findings.txt"""
-    key = ("predf" if _repo_fixed() else "pred") + ("2" if case.get("twice") else "")
+    key = "predf" + ("2" if case.get("twice") else "")
     return case.get(key, [])
 
 
@@ -141,6 +147,9 @@ def fm_classify(case, reason, line):
     model = set(fm_pred(case))
     if r == "overlap-accepted":
         # explained by the literal model of checkAndAddMappedPath (sub-map overwrite / no trace of the whole-input path)?
+        if any(len(g["maps"]) == 0 for g in case["decl"]):
+            # AddInput(pred) without mappings (= the whole input) accepted next to field mappings of the same node
+            return "overlap-whole-input-addinput"
         return "overlap-order" if "overlap-accepted" in model else "overlap-accepted-unmodelled"
     if r in ("panic", "unexpected-error", "hang"):
         msg = fm_first_msg(line, scope, ("panic",) if r == "panic" else ("err",) if r == "unexpected-error" else ("hang",))
@@ -201,6 +210,8 @@ def c15(tier, repo=None):
     if tier == "quick":
         fams = [("m1", 1, FM_SRC, FM_TGT, FM_VARS, {}),
                 ("m3s", 3, ["S", "AI"], ["AIS", "AMk", "AI", "A"], [], {}),
+                # whole-input AddInput (no mappings) before / after field mappings and next to another whole input, both orders
+                ("mw", 2, ["S", "W"], ["S", "AIS", "all"], [], {}),
                 # map[string]any predecessor, stream-native, dense or ONE KEY PER CHUNK; every mapping needs the run-time checker
                 ("mm", 2, FM_MAPSRC, FM_MAPTGT, [], {"kind": "map"}),
                 ("m2", 2, FM_SRC2, FM_TGT2, FM_VARS2, {})]
@@ -209,6 +220,7 @@ def c15(tier, repo=None):
     else:
         fams = [("m1", 1, FM_SRC, FM_TGT, FM_VARS, {}),
                 ("m2", 2, FM_SRC, FM_TGT, FM_VARS, {"timeout": 1500}),
+                ("mw", 3, ["S", "W"], ["S", "AIS", "all"], [], {}),
                 ("mm", 3, FM_MAPSRC, FM_MAPTGT, [], {"kind": "map", "timeout": 1500}),
                 ("m3", 3, ["S", "AIS", "AX", "N", "AI"], ["AIS", "AMk", "AI", "A", "MIkS", "MIkN", "Xk", "Xkj", "all"], ["AXint"], {"timeout": 1500})]
         limit = {"m2": 40000, "m3": 30000, "mm": 15000}
@@ -285,7 +297,7 @@ def c15(tier, repo=None):
     for sig, k in sorted(sig_count.items()):
         log("  rejected, reproduced: sig=%s %d cases" % (sig, k))
     nontriv = len({json.dumps([c["decl"], c["var"], c["tp"], c["twice"]], sort_keys=True) for c in cases
-                   if sum(len(g["maps"]) for g in c["decl"]) >= 2 or c["var"] != "full"})
+                   if sum(max(1, len(g["maps"])) for g in c["decl"]) >= 2 or c["var"] != "full"})
     some = vlib.sample(sorted(obs.keys()), 3)
     cov = {"states": states, "transitions": trans, "traces_validated_against_impl": len(obs),
            "samples": [{"case": by_id[k], "observation": {"compile": obs[k]["compile"], "runs": [{x: r[x] for x in ("mode", "kind", "in")} for r in obs[k]["runs"][:2]]}} for k in some],
